@@ -146,6 +146,29 @@ TABLE = {
         "are not modelled; HEM chain on an 11-state grid with the inversion sampler.",
         "6/C08",
     ),
+    "C18": (
+        "exploration",
+        "exhaustive lattice sweep (model box x maturities x 41-strike lattice, scalar and vector calls) of parity / bounds / monotonicity / convexity / cross-pricer identities with evaluated truncation budgets",
+        "Every model of the documented box x every maturity x every strike of the lattice: COS put-call parity, no-arbitrage "
+        "bounds, monotone and convex calls, digital as discounted probability, density positivity and mass, COS = FFT = closed "
+        "form on Black-Scholes, COS = FFT elsewhere, VG = its CGMY parametrisation. Tolerances are per-strike evaluated "
+        "bounds of the COS / FFT truncation errors (derivation in mc/c18_util.py), not fitted constants.",
+        "The truncation budgets are evaluated a-priori bounds under two stated structural assumptions, not a proof over the "
+        "box (the statement's 'provably below tolerance' is weakened accordingly); strikes whose budget is too wide are "
+        "counted and not asserted.",
+        "6/C18",
+    ),
+    "C19": (
+        "exploration",
+        "exhaustive lattice sweep (models d = 1..3 x threshold tuples x h x symmetric/asymmetric credit grids x recovery x maturity x spread) with complete enumeration of the chain states per configuration",
+        "For every configuration the sum of the per-state rates of the real chain over the default region is compared with "
+        "the box-restricted intensity from an independent rectangle-mass reference; the closed-form intensity with the "
+        "inclusion-exclusion mass of the half-spaces; monotonicity, survival / spread / implied formulas and their "
+        "inverses, CDS legs and default-time underlyings on scripted paths.",
+        "Lattice points only; the copula chain's diffusion-matrix quadrature is stubbed during construction (not observed "
+        "by this property).",
+        "6/C19",
+    ),
 }
 
 READY = []  # filled from checks/ below; a module must define PID
